@@ -1,2 +1,12 @@
 import Sio.Props.C09
-#print axioms Sio.C09.placeholder_stub
+#print axioms Sio.C09.invoke_once
+#print axioms Sio.C09.invoke_once_binary
+#print axioms Sio.C09.ack_unconditional
+#print axioms Sio.C09.ack_packet
+#print axioms Sio.C09.id_invariant
+#print axioms Sio.C09.id_unique
+#print axioms Sio.C09.callback_at_most_once
+#print axioms Sio.C09.callback_on_matching_ack
+#print axioms Sio.C09.callback_only_by_ack
+#print axioms Sio.C09.unknown_ack_inert
+#print axioms Sio.C09.call_result
